@@ -98,6 +98,12 @@ func Denitmo(g *GlobalVarsMain) {
 	thetarel1 := thetaOb30 / thetasat1
 	thetarel2 := thetaOb60 / thetasat2
 	thetarel3 := thetaOb90 / thetasat3
+	if thetasat2 == 0 {
+		thetarel2 = 0 // profile ends above 30 cm
+	}
+	if thetasat3 == 0 {
+		thetarel3 = 0 // profile ends above 60 cm
+	}
 	nitratOb30 := g.C1[0] + g.C1[1] + g.C1[2]
 	nitratOb60 := g.C1[3] + g.C1[4] + g.C1[5]
 	nitratOb90 := g.C1[6] + g.C1[7] + g.C1[8]
